@@ -28,6 +28,12 @@ func (f *Frame) buildFrameSpec(env *SpecEnv, mods []SExpr, now string) *frameSpe
 	fs := &frameSpec{refs: map[string][]string{}, names: map[string]bool{}, now: now}
 	for _, m := range mods {
 		lv := env.lvalue(m)
+		if lv.mapM != nil {
+			for _, hn := range []string{lv.mapM.has, lv.mapM.val, lv.mapM.length} {
+				fs.refs[hn] = append(fs.refs[hn], lv.mapRef)
+			}
+			continue
+		}
 		if len(lv.heapAll) > 0 {
 			for _, n := range lv.heapAll {
 				fs.names[n] = true
